@@ -55,6 +55,12 @@ def check_case(ctx, L, case):
 
 def run_shard(ctx):
     L = layout()
+    from .. import gen
+
+    huge = gen.huge_cases(L)
+    for case in ctx.mine(huge):
+        ctx.count("huge-encodings")
+        ctx.run_plain(lambda case=case: check_case(ctx, L, case), f"huge:{case.type}:{len(case.data)}")
     wellformed_campaign(ctx, L, lambda case: check_case(ctx, L, case), 2 if ctx.quick() else 6, 8000 if ctx.quick() else 80000)
 
 
